@@ -23,6 +23,8 @@ from vf import worker  # noqa  (sets sys.path: /verif and the tree under analysi
 from vf.cond import known_findings
 
 VERIF = os.path.dirname(os.path.dirname(os.path.abspath(__file__)))
+# runs against a scratch tree (INDIPY_SRC, used for seeded changes) never touch the committed evidence
+EVIDENCE_DIR = "evidence" if os.environ.get("INDIPY_SRC", "/repo") == "/repo" else os.path.join("scratch", "evidence-alt")
 PY = sys.executable
 
 
@@ -95,7 +97,7 @@ def main(argv):
     seed = int(os.environ.get("VERIF_SEED", "0") or 0)
     only = os.environ.get("VF_ONLY")  # substring filter, for development only
     os.makedirs(os.path.join(VERIF, "scratch"), exist_ok=True)
-    os.makedirs(os.path.join(VERIF, "evidence"), exist_ok=True)
+    os.makedirs(os.path.join(VERIF, EVIDENCE_DIR), exist_ok=True)
     os.makedirs(os.path.join(VERIF, "replays"), exist_ok=True)
     t0 = time.perf_counter()
     mod = importlib.import_module(f"props.{prop.lower()}")
@@ -263,7 +265,7 @@ def main(argv):
         "violations": len(violations),
     }
     if not only:
-        with open(os.path.join(VERIF, "evidence", f"{prop}.json"), "w") as f:
+        with open(os.path.join(VERIF, EVIDENCE_DIR, f"{prop}.json"), "w") as f:
             json.dump(ev, f, indent=1, default=repr)
     else:
         print(json.dumps({k: v for k, v in ev["coverage"].items() if k in ("inconclusive", "not_reproduced")}, indent=1, default=repr))
